@@ -236,8 +236,14 @@ class Builder(object):
                 t = self.Track(inst)
                 t.name = td["name"]
                 tm = {"name": td["name"], "instrument": td["instrument"], "bars": [], "same_as": None}
-                for (key, meter, entries) in td["bars"]:
-                    b, bm = self.bar(key, meter, entries)
+                built = []
+                for bd in td["bars"]:
+                    if bd[0] == "same":          # the SAME Bar object once more (A B A forms, repeats)
+                        b, bm = built[bd[1]]
+                    else:
+                        (key, meter, entries) = bd
+                        b, bm = self.bar(key, meter, entries)
+                    built.append((b, bm))
                     t.add_bar(b)
                     tm["bars"].append(bm)
             objs.append(t)
@@ -877,6 +883,12 @@ def run(tier, seed):
         comp_case(cdesc([tdesc([simple_bar], name=s, instrument=("plain", s))], title=s, author="A"))
         comp_case(cdesc([tdesc([simple_bar])], title="T", author=s), xml=True)
         comp_case(cdesc([tdesc([simple_bar])], title="T", subtitle=s), xml=False)
+    # the same Bar object more than once in a track (A B A, A A, A B B A): every occurrence is a bar of the output
+    bar_b = ("G", (3, 4), [([("D", 4)], (Fraction(4), 0, (1, 1)), 4)] * 3)
+    for form in ([0, ("same", 0)], [0, 1, ("same", 0)], [0, 1, ("same", 1), ("same", 0)], [0, ("same", 0), ("same", 0)]):
+        bars_f = [simple_bar if x == 0 else bar_b if x == 1 else x for x in form]
+        comp_case(cdesc([tdesc(bars_f)]))
+        comp_case(cdesc([tdesc(bars_f), tdesc([bar_b])]))
     # structure: 0..4 tracks x 0..3 bars; the same Track object twice
     for nt in range(0, 5):
         for nb in range(0, 4):
